@@ -20,7 +20,6 @@
      * `no_marks_in_values iso p` (only when isolating): no selector / call argument is a message or term
        reference or a nested placeable — otherwise isolation marks become part of a compared / passed value
        (known finding D23, C09);
-     * `formatter_keeps_strings` (only for format_pattern): known finding D22 (C08);
      * `no_equal_patterns m` (only for the identity reading, C07_refines_partial): different entries of the bundle
        have structurally different patterns.  Without it the real code can report a cycle where there is none
        (NEW FINDING, witness C07_false_cycle_witness below, reproduced on the Rust code); the reading that
@@ -108,19 +107,20 @@ Theorem C07_cycles_by_identity :
   forall n r, no_equal_patterns m -> SpecS n r -> Spec n r.
 Proof. intros n r Hd. apply Eval_structure_to_identity. exact Hd. Qed.
 
-(* the same for the string API, isolation off: the returned string IS the specified text *)
+(* the same for the string API, isolation off: the returned string IS the specified text (every value formatter:
+   D22 is fixed) *)
 Theorem C07_refines_format_partial :
   forall fuel n p c text sc,
     no_equal_patterns m ->
-    cache_ok rules c -> formatter_keeps_strings formatter -> pattern_named m n = Some p ->
+    cache_ok rules c -> pattern_named m n = Some p ->
     format false (S fuel) p c = Done (text, sc) ->
     ~ In TooManyPlaceables (sc_errors sc) ->
     Spec n (text, sc_errors sc, sc_calls sc).
 Proof.
-  intros fuel n p c text sc Hd Hc Hf Hn H Hno.
+  intros fuel n p c text sc Hd Hc Hn H Hno.
   apply Eval_structure_to_identity; [exact Hd|].
   exact (format_refines_off overflow_checks call_function transform formatter rules custom_as_string
-           unescape_write unescape_to_string f64_from_str m args unescape_forms_agree fuel n p c text sc Hc Hf Hn H Hno).
+           unescape_write unescape_to_string f64_from_str m args unescape_forms_agree fuel n p c text sc Hc Hn H Hno).
 Qed.
 
 (* the specification assigns at most one result: it is a function of (bundle, arguments, pattern) *)
